@@ -70,6 +70,8 @@ class ParseMCNPCell:
     '''Class that parses the CELLS block.'''
 
     LIKE_RE = re.compile(r'like\s+(\d+)\s+but')
+    # data-card shorthand without a leading count: R, I, M, J, ILOG
+    SHORTHAND_RE = re.compile(r'(?:r|i|m|j|ilog|log)', re.IGNORECASE)
 
     def __init__(self, mcnp_parser, cell_cache_path, lattice_params):
         '''
@@ -331,7 +333,9 @@ class ParseMCNPCell:
             fill_params = [mcnp_float(fill_params[0])]
         else:
             fill_params = self.expand_inline_transform(fill_params)
-        if kw_list and kw_list[-1][0] in '0123456789.+-':
+        if kw_list and (kw_list[-1][0] in '0123456789.+-'
+                        or self.SHORTHAND_RE.fullmatch(kw_list[-1])):
+            # (a bare R, I, M or J stands for 1R, 1I, 1M, 1J)
             msg = (f'unexpected entry {kw_list[-1]!r} after the universe '
                    'specifications of the FILL keyword')
             raise ParseMCNPCellError(msg)
